@@ -101,9 +101,6 @@ func (d *astDumper) Dump(n ast.Node) string {
 }
 
 func fragCaseTerm(src string) (string, bool) {
-	if strings.Contains(src, "//line ") || strings.Contains(src, "/*line ") {
-		return "", false // Fset.Position is adjusted by line directives: not modelled
-	}
 	fset := token.NewFileSet()
 	af, err := parser.ParseFile(fset, "a.go", src, parser.ParseComments)
 	if af == nil || (err != nil && !af.Pos().IsValid()) {
